@@ -561,3 +561,17 @@ Proof.
     destruct (fld_zvec3 (map (support ps) (classes (ncls nc))) (map (fun c => tp c ps + fp c ps) (classes (ncls nc))) (map (fun c => tp c ps) (classes (ncls nc)))) as [E0 [E1 E2]].
     rewrite E0, E1, E2, rows3, map_map. cbn [fst snd]. apply map_ext. intros c. apply f1_pt.
 Qed.
+
+(* ------------------------------------------------------------------------------------------ *)
+(* total_on_valid: compute never raises (the one exception is weighted recall, see above)      *)
+(* ------------------------------------------------------------------------------------------ *)
+Lemma acc_gamma_total a s : is_err (acc_gamma_avg a s) = false.
+Proof. destruct a; reflexivity. Qed.
+Lemma prec_gamma_total c s : is_err (prec_gamma c s) = false.
+Proof. destruct c as [[| | |] nc]; reflexivity. Qed.
+Lemma f1_gamma_total c s : is_err (f1_gamma c s) = false.
+Proof. destruct c as [[| | |] nc]; reflexivity. Qed.
+Lemma cm_compute_total nm m : is_err (cm_compute nm m) = false.
+Proof. destruct nm; reflexivity. Qed.
+Lemma rec_gamma_total_partial c s : fst c <> Weighted -> is_err (rec_gamma c s) = false.
+Proof. destruct c as [[| | |] nc]; intros H; try reflexivity. exfalso. apply H. reflexivity. Qed.
